@@ -89,9 +89,11 @@ package evaluator
 //@   ensures fresh(result) && result.ctx == ctx
 //@   modifies nothing
 
+// C13: an evaluator error carries the line of the node it is given and the path of the file being rendered
 //@ func (e *Evaluator) newError
 //@   requires node != nil
 //@   ensures result != nil && fresh(result)
+//@   ensures result.Err.line == lineOfNode(node) && result.Err.filepath == e.ctx.AbsPath
 //@   modifies nothing
 
 //@ func (e *Evaluator) Eval
@@ -132,6 +134,7 @@ package evaluator
 //@   modifies contents(env.store)
 
 //@ func (e *Evaluator) evalAssignStmt
+//@   call newError#*: assert error-carries-the-construct: arg1 == iface(node)
 //@   call Set#0: bind setErr
 //@   call Set#0: assert assigns-in-current-scope: arg0 == env && arg1 == node.Name.Value
 //@   goal assignment-error-surfaces: setErr != nil ==> isErr(result)
@@ -141,12 +144,14 @@ package evaluator
 //@   modifies contents(env.store)
 
 //@ func (e *Evaluator) evalUseStmt
+//@   call newError#*: assert error-carries-the-construct: arg1 == iface(node)
 //@   requires node != nil && WFNode(iface(node)) && env != nil
 //@   use wfUseStmt(node)
 //@   ensures result != nil
 //@   modifies contents(env.store)
 
 //@ func (e *Evaluator) evalReserveStmt
+//@   call newError#*: assert error-carries-the-insert: arg1 == iface(node.Insert)
 //@   requires node != nil && WFNode(iface(node)) && env != nil
 //@   use wfReserveStmt(node)
 //@   use wfInsertStmt(node.Insert)
@@ -154,6 +159,7 @@ package evaluator
 //@   modifies contents(env.store)
 
 //@ func (e *Evaluator) evalComponentStmt
+//@   call newError#*: assert error-carries-the-construct: arg1 == iface(node)
 //@   call NewEnclosedEnv#0: assert component-scope-encloses-the-caller: arg0 == env
 //@   call Eval#1: assert argument-evaluated-at-place-of-use: arg2 == env
 //@   call Set#0: bind setErr
@@ -168,6 +174,7 @@ package evaluator
 //@   modifies contents(env.store)
 
 //@ func (e *Evaluator) evalForStmt
+//@   call newError#*: assert error-carries-the-construct: arg1 == iface(node)
 //@   call NewEnclosedEnv#0: assert loop-scope-encloses-the-caller: arg0 == env
 //@   call Eval#0: assert init-in-loop-scope: arg1 == node.Init && arg2 == newEnv
 //@   call Eval#2: assert else-iff-condition-false-at-entry: !truthy(cond__0) && arg1 == iface(node.Alternative) && arg2 == newEnv
@@ -183,6 +190,7 @@ package evaluator
 //@   modifies contents(env.store)
 
 //@ func (e *Evaluator) evalEachStmt
+//@   call newError#*: assert error-carries-the-construct: arg1 == iface(node)
 //@   call NewEnclosedEnv#0: assert loop-scope-encloses-the-caller: arg0 == env
 //@   call Eval#1: assert else-iff-empty: elemsLen == 0 && arg1 == iface(node.Alternative) && arg2 == newEnv
 //@   call Set#0: assert binds-element-in-order: arg0 == newEnv && arg1 == node.Var.Value && arg2 == elems[rangeindex] && i == rangeindex
@@ -225,18 +233,21 @@ package evaluator
 //@   modifies contents(env.store)
 
 //@ func (e *Evaluator) evalIdentifier
+//@   call newError#*: assert error-carries-the-construct: arg1 == iface(node)
 //@   goal unknown-identifier-is-error: !has(env.store, node.Value) && env.outer == nil ==> isErr(result)
 //@   requires node != nil && env != nil
 //@   ensures result != nil
 //@   modifies contents(env.store)
 
 //@ func (e *Evaluator) evalIndexExp
+//@   call newError#*: assert error-carries-the-construct: arg1 == iface(node)
 //@   requires node != nil && WFNode(iface(node)) && env != nil
 //@   use wfIndexExp(node)
 //@   ensures result != nil
 //@   modifies contents(env.store)
 
 //@ func (e *Evaluator) evalDotExp
+//@   call newError#*: assert error-carries-the-construct: arg1 == iface(node)
 //@   requires node != nil && WFNode(iface(node)) && env != nil
 //@   use wfDotExp(node)
 //@   ensures result != nil
@@ -251,6 +262,7 @@ package evaluator
 //@   modifies nothing
 
 //@ func (e *Evaluator) evalPrefixExp
+//@   call newError#*: assert error-carries-the-construct: arg1 == iface(node)
 //@   requires node != nil && WFNode(iface(node)) && env != nil
 //@   use wfPrefixExp(node)
 //@   ensures result != nil
@@ -284,6 +296,7 @@ package evaluator
 //@   modifies contents(env.store)
 
 //@ func (e *Evaluator) evalCallExp
+//@   call newError#*: assert error-carries-the-construct: arg1 == iface(node)
 //@   call dyncall#1: assert custom-only-without-builtin: !has(typeFuncs, node.Function.Value)
 //@   call dyncall#3: assert int-receiver-faithful: arg0 == as(receiverObj, *object.Int).Value && !has(typeFuncs, node.Function.Value)
 //@   call dyncall#5: assert float-receiver-faithful: same(arg0, as(receiverObj, *object.Float).Value)
@@ -318,6 +331,7 @@ package evaluator
 //@   modifies nothing
 
 //@ func (e *Evaluator) evalObjectIndexExp
+//@   call newError#*: assert error-carries-the-construct: arg1 == node
 //@   requires obj != nil && istype(obj, *object.Obj) && node != nil
 //@   ensures result != nil
 //@   modifies nothing
@@ -332,6 +346,7 @@ package evaluator
 //@   modifies nothing
 
 //@ func (e *Evaluator) evalInfixOperatorExp
+//@   call newError#*: assert error-carries-the-left-operand: arg1 == leftNode
 //@   goal mixed-types-are-errors: objType(left) != objType(right) ==> isErr(result)
 //@   call evalIntegerInfixExp#0: assert operand-roles: arg1 == operator && arg2 == right && arg3 == left
 //@   call evalFloatInfixExp#0: assert operand-roles: arg1 == operator && arg2 == right && arg3 == left
@@ -344,6 +359,7 @@ package evaluator
 //@   modifies nothing
 
 //@ func (e *Evaluator) evalIntegerInfixExp
+//@   call newError#*: assert error-carries-the-left-operand: arg1 == leftNode
 //@   ints wrap64
 //@   goal add: operator == "+" ==> isInt(result, wrap64(intOf(left) + intOf(right)))
 //@   goal sub: operator == "-" ==> isInt(result, wrap64(intOf(left) - intOf(right)))
